@@ -54,6 +54,15 @@ static void *vf_exact_alloc(unsigned long long n) {
   __CPROVER_assume(p != 0);
   return p;
 }
+/* exact-size buffer of symbolic length n <= maxn: one object of *constant* size per possible length (the length is
+ * case-split), so the buffer is a fixed-size array for the solver instead of an array of symbolic size (measured: formula
+ * size linear instead of quadratic in the number of accesses) */
+static void *exact_alloc_n(unsigned long long n, unsigned long long maxn) {
+  void *p = 0;
+  for (unsigned long long k = 0; k <= maxn; ++k) if (n == k) p = malloc(k ? k : 1);
+  __CPROVER_assume(p != 0);
+  return p;
+}
 static void harness(void);
 int main(void) { harness(); return 0; }
 #else
@@ -121,6 +130,7 @@ static void *exact_alloc(unsigned long long n) {
   if (vf_nallocs < 64) vf_allocs[vf_nallocs++] = p;
   return p;
 }
+#define exact_alloc_n(n, maxn) exact_alloc(n)
 static void harness(void);
 int main(int argc, char **argv) {
   unsigned long iters = 1; unsigned long done = 0, skipped = 0;
